@@ -60,11 +60,93 @@ static bool make_nozero(Rng& r, Problem& P) {
 static string vars_tok(const VarSet& v) { return varset_tok(v); }
 static string all_vars(int n) { string all; for (int k = 0; k < n; k++) { if (k) all += "."; all += to_string(k); } return all; }
 
+// ---------------------------------------------------------------------------------------------------
+// LoupFinderCertify (rigor mode of the optimizer): a box returned as certified must contain a point that satisfies the
+// equalities EXACTLY and every inequality, with goal <= the returned value.
+//   certify <goal dag> <ctr dags |> <specs |> <declared box> <search box> <known zeros of the equalities> <finder mode> => FOUND <box> <loup> | NOTFOUND - -
+// Systems: x0 is a root of a polynomial with 2-3 known dyadic roots, the other variables are affine in x0 (all zeros known
+// exactly); inequalities cut some of the zeros off; constraints are declared as scalars or grouped into vector-valued
+// constraints in every order (component index >= number of constraints for the trailing ones).
+struct FakeFinder : public LoupFinder {
+  bool have; Vector pt; double val;
+  FakeFinder() : have(false), pt(1), val(0) {}
+  std::pair<IntervalVector, double> find(const IntervalVector&, const IntervalVector&, double) { if (!have) throw NotFound(); return std::make_pair(IntervalVector(pt), val); }
+};
+
+static void wl_certify(Rng& r, long count) {
+  for (long it = 0; it < count; it++) {
+    try {
+      int n = r.range(2, 3); int nr = r.range(2, 3);
+      vector<double> roots; while ((int)roots.size() < nr) { double a = dyadic(r); bool dup = false; for (double b : roots) if (a == b) dup = true; if (!dup) roots.push_back(a); }
+      Array<const ExprSymbol> x(n); for (int i = 0; i < n; i++) x.set_ref(i, ExprSymbol::new_(("x" + to_string(i)).c_str(), Dim::scalar()));
+      vector<double> ca(n, 0.0), cb(n, 0.0); for (int j = 1; j < n; j++) { ca[j] = r.range(-4, 4) / 2.0; cb[j] = dyadic(r); }
+      IntervalVector box(n); box[0] = Interval(-2.0 - r.range(1, 16) / 8.0, 2.0 + r.range(1, 16) / 8.0); for (int j = 1; j < n; j++) box[j] = Interval(-12, 12);
+      vector<Vector> zeros; for (double a : roots) { Vector p(n); p[0] = a; for (int j = 1; j < n; j++) p[j] = ca[j] * a + cb[j]; zeros.push_back(p); }
+      // scalar constraints
+      vector<const ExprNode*> es; vector<CmpOp> ops;
+      int m = r.coin(75) ? n : n - 1;           // (m = n-1: the last affine relation is dropped, the zeros form curves)
+      for (int j = 0; j < m; j++) {
+        const ExprNode* e;
+        if (j == 0) { e = &(x[0] - roots[0]); for (int k = 1; k < nr; k++) e = &(*e * (x[0] - roots[k])); }
+        else e = &(x[j] - ca[j] * x[0] - cb[j]);
+        es.push_back(e); ops.push_back(EQ);
+      }
+      int k = r.range(1, 3);
+      for (int j = 0; j < k; j++) {
+        const ExprNode* g;
+        if (r.coin(35)) g = &(x[r.below(n)] + (double)r.range(40, 60));                                   // redundant: always satisfied
+        else { // separates the zeros: s*(x_i - t) >= 0 with t strictly between the values of two zeros (or beyond all of them)
+          int i = r.below(n); vector<double> v; for (auto& z : zeros) v.push_back(z[i]); std::sort(v.begin(), v.end());
+          double t; int pos = r.below((int)v.size() + 1);
+          if (pos == 0) t = v[0] - 0.5; else if (pos == (int)v.size()) t = v.back() + 0.5; else t = (v[pos - 1] + v[pos]) / 2;
+          if (r.coin(15)) t = v[r.below(v.size())];                                                     // active at a zero
+          g = r.coin() ? &(x[i] - t) : &(t - x[i]);
+          if (r.coin(25)) g = &(*g * (1.0 + sqr(x[(i + 1) % n])));                                      // (non-linear variant, same sign)
+        }
+        es.push_back(g); ops.push_back(GEQ);
+      }
+      // declaration: groups (equalities / inequalities) in a random order, each group scalar by scalar or as one vector
+      SystemFactory fac; fac.add_var(x, box);
+      const ExprNode* goal = 0; for (int i = 0; i < n; i++) { double c = r.range(-4, 4) / 2.0; if (c == 0 && i == 0) c = 1; const ExprNode& t = c * x[i]; goal = goal ? &(*goal + t) : &t; }
+      fac.add_goal(*goal);
+      bool eq_first = r.coin(); bool vec_eq = m > 1 && r.coin(50), vec_in = k > 1 && r.coin(70);
+      string dags, specs; vector<int> order;
+      for (int pass = 0; pass < 2; pass++) {
+        bool eqs_now = (pass == 0) == eq_first; int lo = eqs_now ? 0 : m, hi = eqs_now ? m : m + k; bool vec = eqs_now ? vec_eq : vec_in;
+        if (vec) { Array<const ExprNode> comps(hi - lo); for (int j = lo; j < hi; j++) comps.set_ref(j - lo, *es[j]); fac.add_ctr(ExprCtr(ExprVector::new_col(comps), ops[lo])); }
+        else for (int j = lo; j < hi; j++) fac.add_ctr(ExprCtr(*es[j], ops[j]));
+        for (int j = lo; j < hi; j++) order.push_back(j);
+      }
+      for (size_t q = 0; q < order.size(); q++) { if (q) { dags += "|"; specs += "|"; } dags += dump_expr(*es[order[q]], x); specs += ops[order[q]] == EQ ? "eq" : "geq"; }
+      System sys(fac);
+      string goal_dag = dump_fun(*sys.goal);
+      string zt = pts_tok(zeros);
+      FakeFinder ff; LoupFinderCertify cert(sys, ff);
+      for (int rep = 0; rep < 8; rep++) {
+        const Vector& z = zeros[r.below(zeros.size())];
+        Vector c = z; if (m < n && r.coin()) c[n - 1] += r.range(-8, 8) / 4.0;    // (another point of the curve of zeros)
+        IntervalVector sb(n); int style = r.below(3);
+        for (int i = 0; i < n; i++) { double rl = style == 0 ? std::ldexp(1.0, -(int)r.range(6, 20)) : r.range(1, 16) / 64.0, ru = style == 0 ? std::ldexp(1.0, -(int)r.range(6, 20)) : r.range(1, 16) / 64.0; sb[i] = Interval(c[i] - rl, c[i] + ru); }
+        int mode = r.below(3);     // 0: the inner finder fails (the midpoint of the box is used); 1: it returns a point close to the zero; 2: the zero itself
+        ff.have = mode != 0;
+        if (ff.have) { ff.pt = c; if (mode == 1) for (int i = 0; i < n; i++) ff.pt[i] += std::ldexp(1.0, -(int)r.range(28, 40)) * (r.coin() ? 1 : -1); Interval gv = sys.goal->eval(IntervalVector(ff.pt)); ff.val = gv.ub(); }
+        string res = "NOTFOUND - -";
+        try { std::pair<IntervalVector, double> p = cert.find(sb, IntervalVector(n), POS_INFINITY); res = "FOUND " + tok(p.first) + " " + hex(p.second); }
+        catch (LoupFinder::NotFound&) { }
+        check_round_up("certify");
+        EMIT("certify %s %s %s %s %s %s %d => %s\n", goal_dag.c_str(), dags.c_str(), specs.c_str(), tok(box).c_str(), tok(sb).c_str(), zt.c_str(), mode, res.c_str());
+      }
+    } catch (VerifAbort& a) { string msg = a.what(); for (auto& ch : msg) if (ch == ' ' || ch == '\n') ch = '_'; EMIT("harnesserror certify abort:%s => 0\n", msg.c_str()); }
+      catch (std::exception& e) { EMIT("harnesserror certify %s => 0\n", typeid(e).name()); }
+  }
+}
+
 int main(int argc, char** argv) {
   string wl = argc > 1 ? argv[1] : "c09";
   uint64_t seed = argc > 2 ? strtoull(argv[2], 0, 10) : 1;
   long count = argc > 3 ? atol(argv[3]) : 50;
   Rng r(seed * 40503 + 7);
+  if (wl == "certify") { std::ostringstream sink; std::streambuf* old = std::cerr.rdbuf(sink.rdbuf()); wl_certify(r, count); std::cerr.rdbuf(old); fprintf(stderr, "emitted %ld\n", emitted); return 0; }
   if (wl != "c09") { fprintf(stderr, "unknown workload\n"); return 2; }
   for (long it = 0; it < count; it++) {
     try {
